@@ -4,7 +4,7 @@
 
 package common
 
-//@ property C05 C06 C36
+//@ property C05 C06 C36 C02
 // addrID(a): the 20-byte id part of an address; acc_addr(pk): account address derived from a public key
 //@ spec addrID(a) = bseq(arr(a), 1, 20)
 //@ smt all (declare-fun acc_addr (BSeq) BSeq)
@@ -13,3 +13,10 @@ package common
 //@   pure
 //@   requires pubKey != nil
 //@   ensures a != nil && addrID(a) == acc_addr(pk_bytes(ref(pubKey))) && addr_id(toiface(a)) == acc_addr(pk_bytes(ref(pubKey)))
+
+// C02: address equality is kind + id equality
+//@ func (a *Address) Equal(a2) (r)
+//@   trusted
+//@   pure
+//@   ensures a != nil && a2 != nil && ivalue(a2) != 0 ==> r == (addr_contract(toiface(a)) == addr_contract(a2) && addr_id(toiface(a)) == addr_id(a2))
+//@   ensures a == nil && a2 != nil && ivalue(a2) != 0 ==> !r
